@@ -7,7 +7,10 @@ CONSTANTS
   RawLen = 0
   Depths = {1, 2, 3, 255, 256, 257, 300}
   Ladders = {3, 10, 24}
-  Devs = {"SelfImportDoubling", "ImportLadder", "EmptyMacroEmbed"}
+  MacroCloses = {3, 300, 2000}
+  SnipDeeps = {100, 200, 254}
+  FileChains = {1050, 1200, 2127, 3150, 4150, 1255, 7040}
+  Devs = {"SelfImportDoubling", "ImportLadder", "EmptyMacroEmbed", "MacroCloseNesting", "DeepImportTree"}
 
 POSTCONDITION Post
 CHECK_DEADLOCK FALSE
